@@ -52,7 +52,11 @@ Definition velocity_choice (requested protocol : Z) (k : key_kind) : Z :=
        end.
 
 (* the requested version is one byte of the login plugin request *)
-Definition impl_requested (b : N) : Z := Z.of_N b.                       (* int(p.Data[0]) *)
+(* PRE-FIX code (before commit 63b6e75, finding C20-1): int(p.Data[0]), unsigned *)
+Definition prefix_requested (b : N) : Z := Z.of_N b.
+(* the code as it is now: int(int8(p.Data[0])) *)
+Definition impl_requested (b : N) : Z :=
+  let u := (b mod 256)%N in if (128 <=? u)%N then Z.of_N u - 256 else Z.of_N u.
 Definition spec_requested (b : N) : Z :=                                 (* ByteBuf.readByte(): signed *)
   if (b <? 128)%N then Z.of_N b else Z.of_N b - 256.
 
@@ -60,8 +64,8 @@ Definition spec_requested (b : N) : Z :=                                 (* Byte
 Definition requested_of_data (req : N -> Z) (data : bytes) : Z :=
   match data with [b] => req b | _ => v_default end.
 
-(* recorded finding 1: a request byte >= 0x80 is read unsigned; the choices differ when the version
-   could go above the default *)
+(* input class of finding C20-1 (fixed by 63b6e75): a request byte >= 0x80 was read unsigned; the
+   choices differed when the version could go above the default *)
 Definition trigger_unsigned (data : bytes) (protocol : Z) (k : key_kind) : bool :=
   match data with
   | [b] => (128 <=? b)%N && ((p_1_19_3 <=? protocol) || match k with KV1 | KV2 => true | _ => false end)
@@ -135,6 +139,9 @@ Definition spec_forwarding_data (data : bytes) (i : fwd_input) : option bytes :=
 (* what the code does *)
 Definition impl_forwarding_data (data : bytes) (i : fwd_input) : option bytes :=
   forwarding_data (requested_of_data impl_requested data) i.
+(* what the PRE-fix code did *)
+Definition prefix_forwarding_data (data : bytes) (i : fwd_input) : option bytes :=
+  forwarding_data (requested_of_data prefix_requested data) i.
 
 (* ---------- the Paper side ---------- *)
 
@@ -165,11 +172,11 @@ Definition paper_parse (b : bytes) : res (parsed * bytes) :=
   bind (read_string_max 32767 r0) (fun addr r1 =>
   bind (read_uuid r1) (fun u r2 =>
   bind (read_string_max 16 r2) (fun name r3 =>
-  bind (read_properties true r3) (fun ps r4 =>
+  bind (impl_read_properties r3) (fun ps r4 =>
   if (v =? 2) || (v =? 3) then
-    bind (read_int true 8 r4) (fun ex r5 =>
-    bind (read_bytes_len true 512 r5) (fun pub r6 =>
-    bind (read_bytes_len true 4096 r6) (fun sg r7 =>
+    bind (read_int 8 r4) (fun ex r5 =>
+    bind (impl_read_bytes_len 512 r5) (fun pub r6 =>
+    bind (impl_read_bytes_len 4096 r6) (fun sg r7 =>
     if v =? 3 then
       bind (read_bool r7) (fun has r8 =>
       if has then bind (read_uuid r8) (fun h r9 =>
